@@ -12,6 +12,10 @@
    Wide presentations (family "wide": every column of a base instance repeated 4^k times, scaled 2^-k,
    n up to 1.3e6 columns, float64 and - where the model proves all n-term reductions exact - float32) of
    one S per spectrum and of integer-norm instances: code(Widen(J)) must be Widen(exact value).
+   Call histories (family "hist"): the same instances, grouped by shape, once more through ONE aggregator object
+   per configuration and ONE tensor buffer per shape refilled in place, every regular call preceded by the
+   non-regular calls of a word of the model (all-zero matrix: judged; a matrix with one all-zero row: unjudged);
+   expected values and allowances stay per instance.
 3. C->S (predicate level): the defining equalities are evaluated in float64 on random integer
    matrices, narrow and widened; TraceImpartial.tla decides admissibility exactly and judges the residuals.
 """
@@ -55,15 +59,73 @@ def scn_name(scn: dict) -> str:
     return f"zero:{scn['m']}x{scn['n']}"
 
 
-def report(ctx: Ctx, scn: dict, res: dict, exps: list[int]) -> None:
+def report(ctx: Ctx, scn: dict, res: dict, exps: list[int], hist: dict | None = None) -> None:
     for f in res["fails"]:
         ctx.count("fail:" + f["agg"].split("(")[0])
-        if not _room(ctx, f["agg"].split("(")[0], f["what"]):
+        if not _room(ctx, ("history:" if hist else "") + f["agg"].split("(")[0], f["what"]):
             continue
-        key = f"{f['agg']}:{f['what']}:{scn_name(scn)}:2^{f['e']}"
-        ctx.violation(key, f"{f['agg']} on 2^{f['e']} x {scn_name(scn)}: {f['what']} – {f.get('why')}; "
+        key = f"{'history:' if hist else ''}{f['agg']}:{f['what']}:{scn_name(scn)}:2^{f['e']}"
+        ctx.violation(key, f"{f['agg']} on 2^{f['e']} x {scn_name(scn)}"
+                           f"{' (one object per configuration, one buffer refilled in place, history chunk %d)' % hist['chunk'] if hist else ''}"
+                           f": {f['what']} – {f.get('why')}; "
                            f"exact value {f.get('want')}, code (rescaled) {str(f.get('got'))[:300]}",
-                      {"kind": "scenario", "scenario": scn, "exps": [f["e"]]})
+                      {"kind": "history", **hist} if hist else {"kind": "scenario", "scenario": scn, "exps": [f["e"]]})
+
+
+HIST_CHUNK = 8
+
+
+def history_items(scenarios: list[dict], words: list, exps: list[int], seed: int) -> list:
+    """The exact instances grouped by shape (both families mixed), in chunks of HIST_CHUNK: one history each."""
+    by: dict = {}
+    for s in sorted((s for s in scenarios if s["fam"] in ("pyth", "aligned")), key=scn_name):
+        by.setdefault((s["m"], s["n"]), []).append(s)
+    items = []
+    for shape in sorted(by):
+        group = by[shape]
+        import random
+        random.Random(seed * 7907 + shape[0] * 31 + shape[1]).shuffle(group)      # pyth and aligned interleaved
+        for i in range(0, len(group), HIST_CHUNK):
+            items.append((group[i:i + HIST_CHUNK], exps, seed * 1_000_003 + len(items), words))
+    return items
+
+
+def run_histories(ctx: Ctx, scenarios: list[dict], hist: list[dict], exps: list[int], only_chunk: int | None = None) -> None:
+    words = sorted(h["word"] for h in hist)
+    items = history_items(scenarios, words, exps, ctx.seed)
+    todo = [(k, it) for k, it in enumerate(items) if only_chunk is None or k == only_chunk]
+    outs = pmap(lib.run_history, [it for _, it in todo], chunksize=1)
+    calls: dict = {}
+    worst = 0.0
+    for (k, it), o in zip(todo, outs):
+        for c, v in o["calls"].items():
+            calls[c] = calls.get(c, 0) + v
+        for scn, r in zip(it[0], o["results"]):
+            ctx.evaluations += r["evals"]
+            worst = max(worst, r["worst"])
+            report(ctx, scn, r, exps, {"chunk": k, "tier": ctx.tier, "seed": ctx.seed})
+        ctx.traces += 1
+    ctx.extra["history_calls"] = calls
+    ctx.extra["history_chunks"] = len(items)
+    ctx.extra["worst_residual_over_allowance_histories"] = worst
+    if only_chunk is None and not (calls.get("zero") and calls.get("zrow") and calls.get("reg_after_other_kind")):
+        raise MachineryError(f"vacuous call histories: {calls}")
+
+
+def model(ctx: Ctx) -> tuple[list[dict], dict]:
+    cfg = "MC_Impartial_quick.cfg" if ctx.tier == "quick" else "MC_Impartial_thorough.cfg"
+    res = run_tlc("Impartial", cfg, workers="auto", coverage=True, seed=ctx.seed, timeout=1500)
+    ctx.add_tlc(res)
+    if res.violated:
+        raise MachineryError(f"Impartial: the specification functions violate {res.violated}\n{res.cex[:1500]}")
+    for act in ("PickPyth", "PickAligned", "PickZero", "PickWide", "PickHist"):
+        if not res.coverage.get(act):
+            raise MachineryError(f"vacuous model check: action {act} never taken")
+    scenarios = res.prints.get("SCN", [])
+    fams = {f: [s for s in scenarios if s["fam"] == f] for f in ("pyth", "aligned", "zero", "wide", "hist")}
+    if not all(fams.values()):
+        raise MachineryError(f"a family is empty: { {f: len(v) for f, v in fams.items()} }")
+    return scenarios, fams
 
 
 def validate_episodes(ctx: Ctx, episodes: list[dict]) -> dict:
@@ -117,23 +179,16 @@ def run(ctx: Ctx, replay: str | None) -> None:
         p = rec["payload"]
         if p["kind"] == "scenario":
             report(ctx, p["scenario"], lib.run_scenario((p["scenario"], p["exps"])), p["exps"])
+        elif p["kind"] == "history":          # the whole history chunk again (instances regenerated by the model)
+            ctx.seed, ctx.tier = p["seed"], p["tier"]
+            scenarios, fams = model(ctx)
+            run_histories(ctx, scenarios, fams["hist"], EXPS[ctx.tier], only_chunk=p["chunk"])
         else:
             ctx.seed = p["seed"]
             validate_episodes(ctx, [lib.random_episode((p["ep"], p["seed"], p.get("k", 0)))])
         return
 
-    cfg = "MC_Impartial_quick.cfg" if ctx.tier == "quick" else "MC_Impartial_thorough.cfg"
-    res = run_tlc("Impartial", cfg, workers="auto", coverage=True, seed=ctx.seed, timeout=1500)
-    ctx.add_tlc(res)
-    if res.violated:
-        raise MachineryError(f"Impartial: the specification functions violate {res.violated}\n{res.cex[:1500]}")
-    for act in ("PickPyth", "PickAligned", "PickZero", "PickWide"):
-        if not res.coverage.get(act):
-            raise MachineryError(f"vacuous model check: action {act} never taken")
-    scenarios = res.prints.get("SCN", [])
-    fams = {f: [s for s in scenarios if s["fam"] == f] for f in ("pyth", "aligned", "zero", "wide")}
-    if not all(fams.values()):
-        raise MachineryError(f"a family is empty: { {f: len(v) for f, v in fams.items()} }")
+    scenarios, fams = model(ctx)
     ctx.exhaustive = True
     ctx.extra["instances"] = {f: len(v) for f, v in fams.items()}
     neg = sum(1 for s in fams["pyth"] if s["admit"] and s["imtlg"].get("vsum_negative"))
@@ -151,7 +206,8 @@ def run(ctx: Ctx, replay: str | None) -> None:
     if not any(s["kind"] == "aligned" and s["exact32"] for s in wide) or not any(s["kind"] == "pyth" for s in wide) \
             or max(s["n"] for s in wide) < 2 ** 20:
         raise MachineryError(f"wide family too thin: {ctx.extra['wide_instances']}")
-    scenarios = sorted((s for s in scenarios if s["fam"] != "wide"), key=scn_name)
+    all_scenarios = scenarios
+    scenarios = sorted((s for s in scenarios if s["fam"] not in ("wide", "hist")), key=scn_name)
     results = pmap(lib.run_scenario, [(s, exps) for s in scenarios], chunksize=8)
     wexps = lib.WIDE_EXPS[ctx.tier]
     # one task per wide instance (tens of MB each), interleaved so that the workers finish together
@@ -184,6 +240,7 @@ def run(ctx: Ctx, replay: str | None) -> None:
                                                              for j in range(scn["m"]) if i != j):
             ctx.nontrivial(scn_name(scn))
     ctx.extra["worst_residual_over_allowance"] = worst
+    run_histories(ctx, all_scenarios, fams["hist"], exps)
     for s in (fams["pyth"][len(fams["pyth"]) // 2], fams["aligned"][len(fams["aligned"]) // 2], fams["zero"][0]):
         ctx.sample({"scenario": {k: v for k, v in s.items() if k not in ("config",)}})
     ws = next(s for s in wide if s["kind"] == "aligned" and s["exact32"] and s["m"] == 3)
